@@ -60,12 +60,21 @@ def _run(cmd, cwd, timeout):
         return 124, out + "\n" + err + "\nTIMEOUT", time.time() - t0, True
 
 
-BASE = ["cargo", "kani", "-Z", "function-contracts", "-Z", "stubbing", "--output-format", "terse",
-        "--target-dir", TARGET_DIR]
+def base_cmd(dst):
+    """one cargo target directory per scratch copy (= per property / per caller): two checks running at the same time must not
+    write into the same target directory (seen once: `goto-cc exited with status 1` while another harness was being built)"""
+    tag = os.path.basename(os.path.dirname(dst))
+    bt = os.environ.get("VERIF_BUILD_TAG", "")
+    if bt and tag.endswith(bt):
+        tag = tag[:-len(bt)] + "_alt"          # seed evaluations etc.: one extra directory per property, not one per run
+    if tag.startswith("DEV_"):
+        tag = "DEV"                             # development runs (tools/dev_kani.py)
+    return ["cargo", "kani", "-Z", "function-contracts", "-Z", "stubbing", "--output-format", "terse",
+            "--target-dir", TARGET_DIR + "_" + re.sub(r"[^\w.-]", "_", tag)]
 
 
 def run_one(dst, h):
-    cmd = BASE + ["--harness", h["harness"]] + h.get("flags", [])
+    cmd = base_cmd(dst) + ["--harness", h["harness"]] + h.get("flags", [])
     rc, out, wall, to = _run(cmd, dst, h.get("timeout", 600))
     r = dict(h)
     out = "\n".join(l for l in out.splitlines() if len(l) < 600)   # drop the multi-kB linker command echo
@@ -106,7 +115,7 @@ def playback(dst, h):
     import sys
     sys.path.insert(0, os.path.dirname(os.path.abspath(__file__)))
     import rustlex
-    cmd = BASE + ["--harness", h["harness"], "-Z", "concrete-playback", "--concrete-playback=print"] + h.get("flags", [])
+    cmd = base_cmd(dst) + ["--harness", h["harness"], "-Z", "concrete-playback", "--concrete-playback=print"] + h.get("flags", [])
     rc, out, wall, to = _run(cmd, dst, h.get("timeout", 600) * 2)
     blocks = re.findall(r"```\n(.*?)```", out, re.S)
     blocks = [b for b in blocks if "Check for `cover`" not in b]
@@ -145,7 +154,7 @@ def playback(dst, h):
     newt = rustlex.untok(toks[:close]) + "\n" + blk + "\n" + rustlex.untok(toks[close:])
     open(pth, "w").write(newt)
     env_save = ENV.get("CARGO_TARGET_DIR")
-    ENV["CARGO_TARGET_DIR"] = TARGET_DIR + "_pb"
+    ENV["CARGO_TARGET_DIR"] = base_cmd(dst)[-1] + "_pb"
     rc2, out2, _, _ = _run(["cargo", "kani", "playback", "-Z", "concrete-playback", "--", test], dst, 1200)
     if env_save is None:
         ENV.pop("CARGO_TARGET_DIR", None)
@@ -160,7 +169,7 @@ def run_harnesses(pid, harnesses, jobs=4):
         return [dict(h, status="undecided", reason=err, wall_s=0, bound=h.get("bound", ""), what=h.get("what", "")) for h in harnesses]
     os.makedirs(TARGET_DIR, exist_ok=True)
     # build once
-    rc, out, wall, to = _run(BASE + ["--only-codegen"], dst, 1500)
+    rc, out, wall, to = _run(base_cmd(dst) + ["--only-codegen"], dst, 1500)
     if rc != 0:
         msg = " | ".join(x[:200] for x in re.findall(r"^error[^\n]*", out, re.M)[:4]) or out[-500:]
         cleanup(pid)
